@@ -4,7 +4,7 @@
    computation over the regenerated lists. *)
 From Coq Require Import List ZArith NArith Bool Lia PArith FMapPositive.
 From Pcfg Require Import Str Multiword Detect Segment SegCorr DetectProofsStr DetectProofsDrive DetectProofsSimple
-     DetectProofsMw DetectProofsSeg.
+     DetectProofsMw DetectProofsSeg DetectProofsWeb.
 From PcfgGen Require Import Consts_gen Unicode_gen.
 Import ListNotations.
 Open Scope Z_scope.
@@ -17,41 +17,35 @@ Definition c_sound := sound c_isalpha c_isdigit c_kbs c_min_run year_prefixes co
 (* U+0130 *)
 Definition dotted_I : N := 304%N.
 
+(* per table entry: lower() is not "", and when it is one character that
+   character has the class of the original *)
 Definition check_entry (ki : positive * cinfo) : bool :=
-  Pos.eqb (fst ki) (ukey dotted_I) ||
   match ci_lower (snd ki) with
+  | [] => false
   | [x] => Bool.eqb (c_isalpha x) (ci_alpha (snd ki)) && Bool.eqb (c_isdigit x) (ci_digit (snd ki))
-  | _ => false
+  | _ => true
   end.
 
 Lemma unicode_entries_good : forallb check_entry (PositiveMap.elements unicode_table) = true.
 Proof. vm_compute. reflexivity. Qed.
 
-Lemma ukey_inj a b : ukey a = ukey b -> a = b.
+(* for every character (pool table, default class outside it): the facts the
+   proofs need about str.lower() *)
+Lemma goodc_all : forall c, c_goodc c.
 Proof.
-  unfold ukey. intros H. apply (f_equal Pos.pred_N) in H. now rewrite !N.pos_pred_succ in H.
-Qed.
-
-(* on this interpreter, for the characters of the pool (and the default class
-   outside it): lower() is one character of the same class, except U+0130 *)
-Lemma goodc_except_0130 : forall c, c <> dotted_I -> c_goodc c.
-Proof.
-  intros c Hc. unfold c_goodc, goodc, c_lower, c_isalpha, c_isdigit, uni_lower, uni_alpha, uni_digit.
+  intros c. unfold c_goodc, goodc, lower1, c_lower, c_isalpha, c_isdigit, uni_lower, uni_alpha, uni_digit.
   destruct (PositiveMap.find (ukey c) unicode_table) as [i|] eqn:E.
-  - apply PositiveMap.elements_correct in E.
-    pose proof (proj1 (forallb_forall _ _) unicode_entries_good _ E) as Hk. unfold check_entry in Hk. cbn [fst snd] in Hk.
-    apply orb_true_iff in Hk. destruct Hk as [Hk|Hk].
-    + apply Pos.eqb_eq in Hk. apply ukey_inj in Hk. contradiction.
-    + destruct (ci_lower i) as [|x [|? ?]]; try discriminate.
-      apply andb_true_iff in Hk. destruct Hk as (Ha & Hd). apply eqb_prop in Ha. apply eqb_prop in Hd.
-      exists x. split; [reflexivity|]. unfold c_isalpha, c_isdigit, uni_alpha, uni_digit in Ha, Hd. now split.
-  - exists c. rewrite E. repeat split.
+  - pose proof E as E'. apply PositiveMap.elements_correct in E'.
+    pose proof (proj1 (forallb_forall _ _) unicode_entries_good _ E') as Hk. unfold check_entry in Hk. cbn [fst snd] in Hk.
+    destruct (ci_lower i) as [|x [|? ?]]; [discriminate| |].
+    + apply andb_true_iff in Hk. destruct Hk as (Ha & Hd). apply eqb_prop in Ha. apply eqb_prop in Hd.
+      split; [discriminate|]. unfold c_isalpha, c_isdigit, uni_alpha, uni_digit in Ha, Hd. now split.
+    + split; [discriminate|]. rewrite E. now split.
+  - split; [discriminate|]. rewrite E. now split.
 Qed.
 
-Lemma good_without_0130 pw : ~ In dotted_I pw -> c_good pw.
-Proof.
-  intros H. apply Forall_forall. intros c Hin. apply goodc_except_0130. intros ->. contradiction.
-Qed.
+Lemma good_all pw : c_good pw.
+Proof. apply Forall_forall. intros c _. apply goodc_all. Qed.
 
 Lemma lower_expanding_is_0130 : lower_expanding = [dotted_I].
 Proof. reflexivity. Qed.
@@ -65,31 +59,44 @@ Proof. vm_compute. discriminate. Qed.
 Lemma side_year_prefixes : Forall (fun q => len q = 2) year_prefixes.
 Proof. repeat constructor. Qed.
 
-(* C05 for the pipeline, detectors keyboard / e-mail / website as hypotheses *)
-Definition c_kw_split_ok := kw_split_ok c_isalpha c_isdigit c_lower c_kbs kb_false_positive_words c_min_run year_prefixes context_strings.
-Definition c_email_split_ok := email_split_ok c_isalpha c_isdigit c_lower c_kbs c_min_run tld_list year_prefixes context_strings.
-Definition c_website_split_ok := website_split_ok c_isalpha c_isdigit c_lower c_kbs c_min_run tld_list year_prefixes context_strings.
+Lemma side_tlds_nonempty : Forall (fun t => 1 <= len t) tld_list.
+Proof.
+  apply Forall_forall. intros x Hx. apply Z.leb_le.
+  revert x Hx. apply (proj1 (forallb_forall (fun t => 1 <=? len t) tld_list)). vm_compute. reflexivity.
+Qed.
 
-Theorem parse_c_ok : c_kw_split_ok -> c_email_split_ok -> c_website_split_ok ->
-  forall m pw, pw <> [] -> ~ In dotted_I pw ->
+(* the source searches the length-preserving lower-casing (it did not before
+   the repair: see refuted_*_0130) *)
+Lemma side_lower_aligned : seg_lower_aligned = true.
+Proof. reflexivity. Qed.
+
+(* C05 for the pipeline; the keyboard-walk detector as a hypothesis *)
+Definition c_kw_split_ok := kw_split_ok c_isalpha c_isdigit c_lower c_kbs kb_false_positive_words c_min_run year_prefixes context_strings.
+
+Theorem parse_c_ok : c_kw_split_ok ->
+  forall m pw, pw <> [] ->
   exists r, parse_c m pw = POk r /\ tiles c_pm pw (p_sections r) /\ Forall c_sound (p_sections r) /\
             Forall (fun y => snd y <> None) (p_sections r).
 Proof.
-  intros Hk He Hw m pw Hne H130. unfold parse_c.
+  intros Hk m pw Hne. unfold parse_c, parse_gen. rewrite side_lower_aligned.
   apply (parse_ok c_isalpha c_isdigit c_isupper c_lower c_kbs kb_false_positive_words c_min_run tld_list
-           year_prefixes context_strings c_threshold c_min_len c_max_len side_min_len side_year_prefixes Hk He Hw m pw).
-  - now apply good_without_0130.
+           year_prefixes context_strings c_threshold c_min_len c_max_len side_min_len side_year_prefixes Hk).
+  - apply email_split_ok_proved.
+  - apply website_split_ok_proved. exact side_tlds_nonempty.
+  - apply good_all.
   - assumption.
 Qed.
 
-(* ---- witnesses: what the faithful model (= the code) does on U+0130 *)
+(* ---- witnesses: what the code did on U+0130 before the repair (the detectors
+   searched section[0].lower() and sliced section[0]) *)
+Notation parse_old := (parse_gen false).
 
 Definition w_web : str := [304; 46; 114; 117; 50; 304]%N.          (* 'İ.ru2İ' *)
 Definition w_web_secs : list section :=
   [([105; 775; 46; 114; 117]%N, Some LW); ([304]%N, Some (LA 1))].
 
 Lemma refuted_website_0130 :
-  parse_c [] w_web = POk {| p_sections := w_web_secs; p_walks := []; p_emails := []; p_providers := [];
+  parse_old [] w_web = POk {| p_sections := w_web_secs; p_walks := []; p_emails := []; p_providers := [];
                             p_urls := [[105; 775; 46; 114; 117]%N]; p_hosts := [[105; 775; 46; 114; 117]%N]; p_prefixes := [None];
                             p_years := []; p_context := []; p_alpha := [[105]%N]; p_masks := [[85]%N];
                             p_digits := []; p_other := []; p_prince := [LW; LA 1]; p_supported := false;
@@ -109,20 +116,20 @@ Qed.
 
 Definition w_empty : str := [304; 46; 99; 111; 109]%N.              (* 'İ.com' *)
 Lemma refuted_empty_segment_0130 :
-  exists r, parse_c [] w_empty = POk r /\
+  exists r, parse_old [] w_empty = POk r /\
             p_sections r = [([105; 775; 46; 99; 111; 109]%N, Some LW); ([], Some (LO 0))].
 Proof. eexists. split; vm_compute; reflexivity. Qed.
 
 Definition w_email : str := [304; 64; 97; 46; 99; 111; 109; 49]%N.  (* 'İ@a.com1' *)
 Lemma refuted_email_0130 :
-  exists r, parse_c [] w_email = POk r /\
+  exists r, parse_old [] w_email = POk r /\
             p_sections r = [(w_email, Some LE); ([], Some (LO 0))] /\
             p_emails r = [[105; 775; 64; 97; 46; 99; 111; 109]%N].
 Proof. eexists. split; [|split]; vm_compute; reflexivity. Qed.
 
 Definition w_alpha : str := [97; 304; 98]%N.                        (* 'aİb' *)
 Lemma refuted_alpha_0130 :
-  exists r, parse_c [] w_alpha = POk r /\
+  exists r, parse_old [] w_alpha = POk r /\
             p_sections r = [([97; 304]%N, Some (LA 2)); ([98]%N, Some (LA 1))] /\
             p_alpha r = [[97; 105]%N; [98]%N] /\
             mwcount_c [] [97; 105]%N = 0 /\ mwcount_c [] [98]%N = 0.
@@ -134,5 +141,5 @@ Lemma demo_parse :
   exists r, parse_c [] w_demo = POk r /\
             p_sections r = [([49; 113; 97; 122]%N, Some (LK 4)); ([50; 48; 49; 57]%N, Some LY); ([35; 49]%N, Some LX);
                             ([112; 97; 115; 115]%N, Some (LA 4)); ([33]%N, Some (LO 1))] /\
-            w_demo <> [] /\ ~ In dotted_I w_demo.
-Proof. eexists. repeat split; try (vm_compute; reflexivity); [discriminate|vm_compute; intuition discriminate]. Qed.
+            w_demo <> [].
+Proof. eexists. repeat split; try (vm_compute; reflexivity). discriminate. Qed.
